@@ -432,7 +432,7 @@ func c16(tier string, r *ev.Run, replay string) {
 	}
 	r.Cov["reopen_events"] = reopens
 	r.Cov["page_sizes"] = "search: 80, 96; long histories: 4096, 256 (+80 thorough)"
-	ex := r.Cov["explanation"].(map[string]any)
+	ex := r.Cov["details"].(map[string]any)
 	ex["alphabet"] = "Set(k,v), DeleteBelow(ts), IterateKV(rewrite), Reopen (= Close + NewTreePersistent on the same path) enabled in every state; Reset is excluded (the property quantifies over Set/DeleteBelow histories)"
 	ex["oracle"] = "at Reopen: nextPage, freePage, Stats() except Allocated equal before/after; Get of every tracked key and IterateKV still equal the model the state agreed with before; no panic / error. Other operations: the C10 oracle, judged for C16 only when the failure disappears once the Reopen events are removed from the history. Long histories: additionally the run that reopens at every structural change is compared (IterateKV count+checksum, nextPage, freePage, Stats) at every such point with the same history run without Reopen"
 	ex["state_key"] = "bytes of pages 1..nextPage-1 + nextPage + freePage + private stats + len(data) + mapped file size"
